@@ -45,11 +45,6 @@ let sout_str = function
       env_view (fun nm -> match f (str_of_bytes nm) with Some v -> [v] | None -> []) ^ " cwd=" ^ q d
   | SVal v -> "val=" ^ q (match v with Some x -> x | None -> [])
 
-let kclass_str = function
-  | None -> "-"
-  | Some KReadIfsShadowed -> "read-ifs-shadowed"
-  | Some KReadRejoined -> "read-remainder-rejoined"
-
 let state_str (s : st) : string =
   "L" ^ sorted_map s.locals ^ " E" ^ sorted_map s.envp ^ " cwd=" ^ q s.cwd ^ " prev=" ^ q s.prev
 
@@ -110,11 +105,6 @@ let rec tokens = function
   | t :: x :: r -> (tag_of (dec_bytes t), str_of_field x) :: tokens r
   | _ -> failwith "tokens"
 
-(* does the tree under test contain the proposed repair of read (notes/C09-fix-6.patch)? *)
-let fx =
-  let f = try Sys.getenv "C09_FIXES" with Not_found -> "" in
-  (String.contains f (Char.chr 114) : fixes) (* single-field record: extracted as its field *)
-
 let () =
   iter_lines (fun l ->
     match split_tab l with
@@ -139,12 +129,11 @@ let () =
           | f :: _text :: r ->
               let o = op_of f in
               let a = abs s in
-              let k = known fx a o in
-              let (_, so) = spec_step fx w a o in
-              let (s', out) = step fx w s (render o) in
+              let (_, so) = spec_step w a o in
+              let (s', out) = step w s (render o) in
               if Buffer.length buf > 0 then Buffer.add_char buf '\t';
               Buffer.add_string buf (outcome_str out ^ "|" ^ state_str s' ^ "|" ^ sout_str so ^ "|" ^
-                                     kclass_str k ^ "|" ^ (if wf_op o then "wf" else "illformed"));
+                                     (if wf_op o then "wf" else "illformed"));
               (match out with OPanic -> () | _ -> go s' r) in
         go s0 ops;
         print_endline (Buffer.contents buf)
